@@ -91,7 +91,12 @@ def step (st : Unit) (j : Json) : Unit × Json :=
         let mut st := init
         let mut outs : Array Json := #[]
         for r in runs do
-          let reset ← boolField r "reset"
+          let reset0 ← boolField r "reset"
+          -- alternative entry points of a reset: "method" = reset_recon() then reconstruct(reset=False);
+          -- "classmethod" = from_ptychography (clone, reset_recon on the clone) then reconstruct(reset=False)
+          let route := (strField r "route").toOption.getD "arg"
+          if route != "arg" then st := resetRecon st
+          let reset := reset0 && route == "arg"
           let iters ← natField r "iters"
           let b ← natField r "b"
           if b == 0 then throw "b=0"
